@@ -122,6 +122,11 @@ ENTRIES.append(('C20', 'time-fraction-zeros', ['time-fraction-zeros'], "('c20-st
 _WRAP_WHAT = ("CachingStreamWrapper (used for every non-seekable substrate) drops its cache and renumbers positions from 0 when the mark is set more than io.DEFAULT_BUFFER_SIZE octets into the cache; the decoder keeps absolute positions (original_position, bytesRead) of enclosing definite-length elements across that point")
 _WRAP_WHY = "pinned by tests/codec/test_streaming.py CachingStreamWrapperTestCase.testMarkedPositionResets, which asserts markedPosition == 0 and an empty cache after the drop"
 EXTRA = [
+ {'id': 'KF-C10-real-default-float-fixpoint', 'status': 'open', 'property': 'C10',
+  'symptom': ['fixpoint-differs:real'], 'zone': ['default-real-huge'],
+  'what': FAMILIES['real-default-float']['what'] + ' -- seen here as: a BER REAL with a scaled mantissa decodes to a (mantissa, 2, exponent) split whose float() underflows to 0.0 although the number itself does not; re-encoding takes it for the DEFAULT 0 and omits it, so decode(encode(decode(x))) holds a different number',
+  'why_open': FAMILIES['real-default-float']['why_open'],
+  'witness': "('c10', ('seq', (('f0', ('real',), 'def', 0),)), (), '300e090ccdfbcb080000000000000008', 'BER')"},
  {'id': 'KF-C14-real-constraints-see-the-internal-tuple', 'status': 'open', 'property': 'C14',
   'symptom': ['real:constraint-evaluation-raised:TypeError', 'real:rejects-inside', 'real:accepts-outside'], 'zone': ['domain:real'],
   'what': 'the constraint of a REAL type is evaluated against the internal (mantissa, base, exponent) tuple, not against the number: a ValueRangeConstraint raises TypeError from its comparison for every finite value (REAL (0..3) cannot hold 2.5), a SingleValueConstraint of numbers never matches',
